@@ -98,9 +98,9 @@ class Multiplication:
     processed_circulars = set()
     for l in segment.dovetails + segment.containments:
       if l.is_circular():
-        if l not in processed_circulars:
+        if id(l) not in processed_circulars:
           self.__divide_counts(l, factor)
-          processed_circulars.add(l)
+          processed_circulars.add(id(l))
       else:
         self.__divide_counts(l, factor)
 
@@ -108,7 +108,12 @@ class Multiplication:
     cpy = segment.clone()
     cpy.name = clone_name
     cpy.connect(self)
+    processed = set()
     for l in segment.dovetails + segment.containments:
+      # an edge of the segment with itself is listed twice
+      if id(l) in processed:
+        continue
+      processed.add(id(l))
       lc = l.clone()
       if lc.from_segment == segment.name:
         lc.from_segment = clone_name
@@ -175,17 +180,28 @@ class Multiplication:
                                            segment_name, factor)
     if end_type is None:
       return
-    et_links = self.segment(segment_name).dovetails_of_end(end_type)
+    # (a link of the end with itself is listed twice)
+    et_links = []
+    for l in self.segment(segment_name).dovetails_of_end(end_type):
+      if not any(l is e for e in et_links):
+        et_links.append(l)
     diff = max([len(et_links)-factor, 0])
-    links_signatures = list([repr(l.other_end(gfapy.SegmentEnd(segment_name, \
-                          end_type))) for l in et_links])
+    links_signatures = [self.__link_signature(l, segment_name, end_type,
+                                              segment_name) for l in et_links]
     for i, sn in enumerate([segment_name]+copy_names):
       to_keep = links_signatures[i:i+diff+1]
       links = self.segment(sn).dovetails_of_end(end_type).copy()
       for l in links:
-        l_sig = repr(l.other_end(gfapy.SegmentEnd(sn, end_type)))
-        if l_sig not in to_keep:
+        l_sig = self.__link_signature(l, sn, end_type, segment_name)
+        if l_sig not in to_keep and l.is_connected():
           l.disconnect()
+
+  @staticmethod
+  def __link_signature(link, sn, end_type, segment_name):
+    # the other end of the link; if it lies on the segment itself (or on
+    # the copy itself), it is named after the original segment
+    oe = link.other_end(gfapy.SegmentEnd(sn, end_type))
+    return (segment_name if oe.name == sn else oe.name, oe.end_type)
 
   def _segment_and_segment_name(self, segment_or_segment_name):
     if isinstance(segment_or_segment_name, gfapy.Line):
